@@ -74,6 +74,14 @@ def gen(rng, tier):
             if tier == "quick" and rng.random() < 0.6: continue
             add("totpnow", [kn, kl, p, d, s, now, err], "k%d%s p%s d%s sel%s now%s err%d" % (kn, kl, "ok" if p > 0 else "bad", "ok" if 1 <= d <= 9 else "bad", s, "neg" if now < 0 else "pos", err))
             add("totpvalidnow", [kn, kl, p, d, s, now, err], "k%d%s p%s d%s sel%s now%s err%d" % (kn, kl, "ok" if p > 0 else "bad", "ok" if 1 <= d <= 9 else "bad", s, "neg" if now < 0 else "pos", err))
+    # a null pointer with a length that is a non-zero multiple of 2^32 (a length narrowed to 32 bits looks like 0)
+    for big in [2 ** 32, 3 * 2 ** 32, 2 ** 63, 2 ** 32 + 2 ** 40]:
+        add("gethmac", [1, big, 0, 5, 0], "null key len=k*2^32"); add("gethmac", [0, 5, 1, big, 0], "null msg len=k*2^32")
+        add("pbkdf2vec", [1, big, 0, 16, 1, 20, 1], "null password len=k*2^32"); add("pbkdf2vec", [0, 8, 1, big, 1, 20, 1], "null salt len=k*2^32")
+        add("pbkdf2buf", [1, big, 0, 16, 0, 1, 20, 1], "null password len=k*2^32"); add("pbkdf2buf", [0, 8, 1, big, 0, 1, 20, 1], "null salt len=k*2^32")
+        add("pbkdf2sha256", [1, big, 0, 16, 0, 1, 20], "null password len=k*2^32"); add("pepper", [0, 8, 0, 16, 1, big, 1, 20, 1], "null pepper len=k*2^32")
+        add("hkdfx", [1, big, 0, 5], "null ikm len=k*2^32"); add("hkdfe", [0, 32, 1, big, 10], "null info len=k*2^32"); add("hotp", [1, big, 6, 0], "null key len=k*2^32")
+        add("hmacinit", [1, big, 0], "null key len=k*2^32"); add("hmacupdate", [1, big, 0], "null data len=k*2^32"); add("secretset", [1, big], "null data len=k*2^32")
     # values congruent to a valid one modulo 2^8 / 2^16 (a parameter narrowed to a byte or a short would take them for valid)
     for d in [6 + 256, 1 + 256, 9 + 256, 6 - 256, 6 + 65536, 262 + 65536, 6 - 65536, 6 + 2 ** 24]:
         for (kn, kl) in [(0, 5)]:
